@@ -583,6 +583,9 @@ def clause_g(rep, F):
     rep.floor("rows of the token dispatch table compared with the specification", dispatch.check(rep, F), 500)
     from . import charclass
     rep.floor("character classes compared with their productions", charclass.check(rep, F, ["is_anchor_char", "is_flow", "is_digit", "is_blank_or_breakz"]), 3)
+    # a flow collection (or quoted scalar) used as a key may be separated from its ':' by blanks, the value may follow the ':' directly
+    from . import C13 as _C13
+    rep.floor("writes of the adjacent-value position", _C13.adjacent_position_is_final(rep, F), 2)
 
 
 # After an indicator token the node is left out exactly when the token that follows cannot start a node but may legally follow.  The sets are
